@@ -104,11 +104,19 @@ func (c *counter) snapshot() int64 {
 	return atomic.LoadInt64(&c.curr)
 }
 
+// A gauge's state word counts the updates that have completed (upper bits) and
+// the updates that are in the middle of storing their value (lower bits).
+const (
+	_gaugeInflightBits = 16
+	_gaugeInflightMask = 1<<_gaugeInflightBits - 1
+	_gaugeCompleted    = 1 << _gaugeInflightBits
+)
+
 type gauge struct {
-	// seq is incremented before and after every store of curr: it is odd while
-	// an Update is storing its value and even otherwise, so that a report can
-	// tell which value it read and whether it has delivered that value before.
-	seq         uint64
+	// state is touched before and after every store of curr, so that a report
+	// can tell whether a value is being stored right now, which generation of
+	// the value it has read, and whether it has delivered that one before.
+	state       uint64
 	reported    uint64
 	curr        uint64
 	cachedGauge CachedGauge
@@ -119,9 +127,9 @@ func newGauge(cachedGauge CachedGauge) *gauge {
 }
 
 func (g *gauge) Update(v float64) {
-	atomic.AddUint64(&g.seq, 1)
+	atomic.AddUint64(&g.state, 1)
 	atomic.StoreUint64(&g.curr, math.Float64bits(v))
-	atomic.AddUint64(&g.seq, 1)
+	atomic.AddUint64(&g.state, _gaugeCompleted-1)
 }
 
 func (g *gauge) value() float64 {
@@ -129,27 +137,28 @@ func (g *gauge) value() float64 {
 }
 
 // unreported returns the gauge's value if an Update has completed since the
-// value delivered last. It waits for an Update that is in the middle of storing
+// value delivered last. It waits while any Update is in the middle of storing
 // its value (a matter of two instructions on the other side), so that one
 // update is never taken twice - once through its value, once through its
-// completion - and a completed update is never skipped.
+// completion -, a completed update is never skipped, and the value taken is
+// always one that an Update has stored.
 func (g *gauge) unreported() (float64, bool) {
 	for {
-		seq := atomic.LoadUint64(&g.seq)
-		if seq&1 == 1 {
+		state := atomic.LoadUint64(&g.state)
+		if state&_gaugeInflightMask != 0 {
 			runtime.Gosched()
 			continue
 		}
-		if seq == atomic.LoadUint64(&g.reported) {
+		if state == atomic.LoadUint64(&g.reported) {
 			return 0, false
 		}
 
 		v := g.value()
-		if atomic.LoadUint64(&g.seq) != seq {
+		if atomic.LoadUint64(&g.state) != state {
 			continue
 		}
 
-		atomic.StoreUint64(&g.reported, seq)
+		atomic.StoreUint64(&g.reported, state)
 		return v, true
 	}
 }
